@@ -465,6 +465,12 @@ pub fn gen_scenario(rng: &mut Rng, i: u64) -> Scenario {
         let k = *b.r.pick(KINDS); let n2 = *b.r.pick(NAME_SOURCES); let t2 = *b.r.pick(TARGETS);
         b.motif(k, n2, t2);
     }
+    // every second case carries a motif in which the effects of several bridges touch each other (gen_chain.rs); the kind
+    // cycles with the case index, 1 in 4 of those cases has a second one
+    if i % 2 == 1 {
+        b.chain_motif(CHAIN_KINDS[((i / 2) % CHAIN_KINDS.len() as u64) as usize]);
+        if b.r.chance(1, 4) { let k = *b.r.pick(CHAIN_KINDS); b.chain_motif(k); }
+    }
     // value types appear in the mappings most of the time
     let values: Vec<String> = b.main.iter().take(9).map(|c| c.name.clone()).collect();
     for v in values { if b.r.chance(3, 4) { b.map_class(&v); } }
